@@ -20,6 +20,7 @@ import (
 	"net/netip"
 	"slices"
 	"strings"
+	"sync"
 	"time"
 
 	"github.com/mdlayher/corerad/internal/system"
@@ -40,6 +41,12 @@ type Plugin interface {
 	// Apply applies Plugin data to the input RA.
 	Apply(ra *ndp.RouterAdvertisement) error
 }
+
+// prepareMu serializes Prepare, which populates a plugin's runtime fields once
+// its interface is up, with Apply, which reads them. The same plugin values are
+// shared by an advertiser, the metrics collector, and the debug HTTP handler,
+// all of which run concurrently.
+var prepareMu sync.RWMutex
 
 // CaptivePortal configures a NDP Captive Portal option.
 type CaptivePortal struct {
@@ -181,12 +188,18 @@ func (l *LLA) String() string {
 
 // Prepare implements Plugin.
 func (l *LLA) Prepare(ifi *net.Interface) error {
+	prepareMu.Lock()
+	defer prepareMu.Unlock()
+
 	l.Addr = ifi.HardwareAddr
 	return nil
 }
 
 // Apply implements Plugin.
 func (l *LLA) Apply(ra *ndp.RouterAdvertisement) error {
+	prepareMu.RLock()
+	defer prepareMu.RUnlock()
+
 	// Only apply the option if Addr is set. It would not be set for
 	// point-to-point links, for example.
 	if l.Addr == nil {
@@ -292,6 +305,9 @@ func (p *Prefix) String() string {
 
 // Prepare implements Plugin.
 func (p *Prefix) Prepare(ifi *net.Interface) error {
+	prepareMu.Lock()
+	defer prepareMu.Unlock()
+
 	// Use the real system time.
 	p.TimeNow = time.Now
 
@@ -304,6 +320,9 @@ func (p *Prefix) Prepare(ifi *net.Interface) error {
 
 // Apply implements Plugin.
 func (p *Prefix) Apply(ra *ndp.RouterAdvertisement) error {
+	prepareMu.RLock()
+	defer prepareMu.RUnlock()
+
 	if !p.Auto {
 		// User specified an exact prefix so apply it directly.
 		p.apply([]netip.Prefix{p.Prefix}, ra)
@@ -489,6 +508,9 @@ func (r *Route) String() string {
 
 // Prepare implements Plugin.
 func (r *Route) Prepare(_ *net.Interface) error {
+	prepareMu.Lock()
+	defer prepareMu.Unlock()
+
 	// Use the real system time.
 	r.TimeNow = time.Now
 
@@ -500,6 +522,9 @@ func (r *Route) Prepare(_ *net.Interface) error {
 
 // Apply implements Plugin.
 func (r *Route) Apply(ra *ndp.RouterAdvertisement) error {
+	prepareMu.RLock()
+	defer prepareMu.RUnlock()
+
 	if !r.Auto {
 		// User specified an exact route so apply it directly.
 		r.apply([]netip.Prefix{r.Prefix}, ra)
@@ -660,6 +685,9 @@ func (r *RDNSS) String() string {
 
 // Prepare implements Plugin.
 func (r *RDNSS) Prepare(ifi *net.Interface) error {
+	prepareMu.Lock()
+	defer prepareMu.Unlock()
+
 	// Fetch addresses from the specified interface whenever invoked.
 	a := system.NewAddresser()
 	r.Addrs = func() ([]system.IP, error) { return a.AddressesByIndex(ifi.Index) }
@@ -669,6 +697,9 @@ func (r *RDNSS) Prepare(ifi *net.Interface) error {
 
 // Apply implements Plugin.
 func (r *RDNSS) Apply(ra *ndp.RouterAdvertisement) error {
+	prepareMu.RLock()
+	defer prepareMu.RUnlock()
+
 	if !r.Auto {
 		// User specified exact servers so apply them directly.
 		r.apply(r.Servers, ra)
